@@ -343,7 +343,7 @@ func fieldVal(d Draw, f string) string {
 }
 
 func (d Driver) Run(c *core.Ctx) error {
-	c.Rule = "scenario = drawing program (1-4 styled draws of lattice paths, optional image before a draw, integer view matrices) generated by TLC from spec/GState.tla: exhaustive for length <= 2 over the 64-style subset, RandomSubset for length 3-4 over the full style space; evaluations = (program, back-end) traces validated by Trace_GState + programs compared with the rasterizer; non-trivial = distinct programs with at least 2 draws in which two consecutive draws differ in a cached style field"
+	c.Rule = "scenario = drawing program (1-4 styled draws of lattice paths, optional image before a draw, integer view matrices) generated by TLC from spec/GState.tla: exhaustive for length <= 2 over the 64-style subset in the thorough tier (800 sampled pairs in the quick tier), RandomSubset for length 3-4 over the full style space; evaluations = (program, back-end) traces validated by Trace_GState + programs compared with the rasterizer; non-trivial = distinct programs with at least 2 draws in which two consecutive draws differ in a cached style field"
 	c.Assumptions = []string{
 		"PostScript has no opacity: alpha is not compared for the ps back-end (documented limitation of the back-end)",
 		"canvas scales dash lengths by the stroke width in every renderer (ScaleDash in rasterizer.go): requested dash = dash * width * view scale, although Context.SetDashes documents millimetres",
@@ -360,15 +360,11 @@ func (d Driver) Run(c *core.Ctx) error {
 		t0 = time.Now()
 		c.SetExtra("phase_wall_s", phase)
 	}
-	h, err := header(c)
-	if err != nil {
-		return err
-	}
-	lap("header")
+	var h *Header
 
 	// 1. model level: the reference emitter's output conforms for every language (spec consistency), all single draws + pairs
-	c.TLC(tlc.Opts{Module: "GState", Config: mcCfg("mc", c.Pick(4, 12)), Seed: c.Seed, Coverage: c.Thorough()}, true)
-	c.TLC(tlc.Opts{Module: "GState", Config: mcCfg("mcfull", c.Pick(250, 6000)), Seed: c.Seed}, true)
+	c.TLC(tlc.Opts{Module: "GState", Config: mcCfg(map[bool]string{false: "mcq", true: "mc"}[c.Thorough()], c.Pick(4, 12)), Seed: c.Seed, Coverage: c.Thorough()}, true)
+	c.TLC(tlc.Opts{Module: "GState", Config: mcCfg("mcfull", c.Pick(120, 6000)), Seed: c.Seed}, true)
 
 	lap("model")
 	// 2. generate programs (with the painter's-order frame for the rasterizer tie-in)
@@ -378,7 +374,14 @@ func (d Driver) Run(c *core.Ctx) error {
 		o.OnLine = func(p []byte) {
 			var g genLine
 			if err := json.Unmarshal(p, &g); err != nil || len(g.Prog) == 0 {
-				if !bytes.Contains(p, []byte(`"hdr"`)) {
+				var hd Header
+				if json.Unmarshal(p, &hd) == nil && hd.Hdr {
+					mu.Lock()
+					if h == nil {
+						h = &hd
+					}
+					mu.Unlock()
+				} else {
 					c.Broken("bad generator line: " + trunc(string(p), 200))
 				}
 				return
@@ -390,12 +393,12 @@ func (d Driver) Run(c *core.Ctx) error {
 		c.TLC(o, true)
 	}
 	gens := []tlc.Opts{
-		{Module: "GState", Config: genCfg("sub2", 0, 0, false)},
-		{Module: "GState", Config: genCfg("rand", 3, c.Pick(1200, 20000), false), Seed: c.Seed},
-		{Module: "GState", Config: genCfg("rand", 4, c.Pick(600, 12000), false), Seed: c.Seed + 1},
+		{Module: "GState", Config: genCfg("sub2", 0, c.Pick(800, 0), false), Seed: c.Seed + 4},
+		{Module: "GState", Config: genCfg("rand", 3, c.Pick(500, 20000), false), Seed: c.Seed},
+		{Module: "GState", Config: genCfg("rand", 4, c.Pick(250, 12000), false), Seed: c.Seed + 1},
 		// programs with the painter's-order frame (all four renderers are tied to these)
-		{Module: "Raster", Config: genCfg("rand", 2, c.Pick(250, 3000), true), Seed: c.Seed + 2},
-		{Module: "Raster", Config: genCfg("rand", 3, c.Pick(150, 3000), true), Seed: c.Seed + 3},
+		{Module: "Raster", Config: genCfg("rand", 2, c.Pick(120, 3000), true), Seed: c.Seed + 2},
+		{Module: "Raster", Config: genCfg("rand", 3, c.Pick(80, 3000), true), Seed: c.Seed + 3},
 	}
 	if c.Thorough() {
 		gens = append(gens, tlc.Opts{Module: "GState", Config: genCfg("sub2big", 0, 0, false)})
@@ -408,7 +411,7 @@ func (d Driver) Run(c *core.Ctx) error {
 	}
 	close(gch)
 	core.Parallel(3, gch, collect)
-	if len(progs) == 0 {
+	if len(progs) == 0 || h == nil {
 		return fmt.Errorf("generator produced no programs")
 	}
 	// deterministic order
@@ -448,7 +451,7 @@ func (d Driver) Run(c *core.Ctx) error {
 
 	lap("generate")
 	// 3. render + lex (parallel), chunked traces
-	nChunks := 10
+	nChunks := c.Pick(5, 10)
 	if n := len(progs) / 2500; n > nChunks {
 		nChunks = n
 	}
